@@ -195,9 +195,10 @@ func (ex *Exec) paramObjs(fn *ssa.Function) []*types.Var {
 }
 
 type specScope struct {
-	pos   token.Pos
-	rets  []*types.Var
-	extra map[string]*types.Var
+	pos     token.Pos
+	rets    []*types.Var
+	extra   map[string]*types.Var
+	logical []*types.Var
 }
 
 var scopeCache = map[string]*specScope{}
@@ -246,6 +247,18 @@ func (ex *Exec) funcScope(fn *ssa.Function, con *Contract) *specScope {
 	if con != nil {
 		for _, cp := range con.Captures {
 			ex.insertCaptureVars(fn, sc, pk.Types, cp, s)
+		}
+		for _, lv := range con.Logical {
+			tv, err := types.Eval(pk.Fset, pk.Types, body.Rbrace, lv[1])
+			if err != nil {
+				unsupp("logical %s %s: %v", lv[0], lv[1], err)
+			}
+			v, _ := sc.Lookup(lv[0]).(*types.Var)
+			if v == nil {
+				v = types.NewVar(token.NoPos, pk.Types, lv[0], tv.Type)
+				sc.Insert(v)
+			}
+			s.logical = append(s.logical, v)
 		}
 	}
 	scopeCache[key] = s
@@ -323,11 +336,16 @@ func (ex *Exec) calleeEnv(fn *ssa.Function, con *Contract, args []Val, pre, post
 	sc := ex.funcScope(fn, con)
 	pk := ex.prog.pkgOf(fn)
 	env := &SpecEnv{ex: ex, pkg: pk, pos: sc.pos, st: post, old: pre, objs: map[types.Object]Val{}, entry: map[types.Object]Val{}, label: funcLabel(fn)}
+	env.tparams = typeParamMap(fn)
 	for i, p := range ex.paramObjs(fn) {
 		if i < len(args) {
 			env.objs[p] = args[i]
 			env.entry[p] = args[i]
 		}
+	}
+	for _, lv := range sc.logical {
+		env.objs[lv] = BoundVar("lv."+lv.Name(), leafSort(lv.Type()))
+		env.logicalBound = append(env.logicalBound, env.objs[lv].(*Term))
 	}
 	// captures of the callee are not observable from outside: arbitrary values
 	for name, v := range sc.extra {
@@ -376,7 +394,13 @@ func (ex *Exec) modularCall(fr *Frame, st *State, site ssa.Instruction, fn *ssa.
 	rets := ex.freshResults(st, fn.Signature, "r."+fn.Name()+".")
 	env := ex.calleeEnv(fn, con, args, pre, st, rets)
 	for _, cl := range con.Ensures {
-		ex.fact(st, env.evalBool(cl.Text))
+		f := env.evalBool(cl.Text)
+		if f.hasBound && len(env.logicalBound) > 0 {
+			f = Forall(env.logicalBound, Implies(st.reach, f))
+			ex.fact(nil, f)
+			continue
+		}
+		ex.fact(st, f)
 	}
 	return rets
 }
@@ -612,6 +636,10 @@ func (ex *Exec) pureApply(fn *ssa.Function, con *Contract, args []Val, st *State
 			hasBound = true
 		}
 	}
+	if hasBound {
+		ex.pureAxiom(fn, con, name)
+		return rets
+	}
 	key := fmt.Sprintf("%s|%v", name, termIDs(flat))
 	if !ex.pureSeen[key] && ex.pureDepth < 2 {
 		ex.pureSeen[key] = true
@@ -619,9 +647,7 @@ func (ex *Exec) pureApply(fn *ssa.Function, con *Contract, args []Val, st *State
 		env := ex.calleeEnv(fn, con, args, st, st, rets)
 		for _, cl := range con.Ensures {
 			f := env.evalBool(cl.Text)
-			if hasBound || f.hasBound && containsAnyBound(f, flat) {
-				// instantiate lazily through a quantified axiom is not possible here; keep as pending
-				ex.pending = append(ex.pending, pendingFact{f})
+			if f.hasBound {
 				continue
 			}
 			ex.fact(nil, f)
@@ -629,6 +655,53 @@ func (ex *Exec) pureApply(fn *ssa.Function, con *Contract, args []Val, st *State
 		ex.pureDepth--
 	}
 	return rets
+}
+
+// pureAxiom asserts, once per VC, the postconditions of a pure (heap-independent) function for all
+// arguments: used when the function is applied to quantified variables.
+func (ex *Exec) pureAxiom(fn *ssa.Function, con *Contract, name string) {
+	if con.PureHeap || ex.pureSeen["axiom|"+name] || ex.pureDepth >= 2 {
+		return
+	}
+	ex.pureSeen["axiom|"+name] = true
+	ex.pureDepth++
+	defer func() { ex.pureDepth-- }()
+	var bvs []*Term
+	var args []Val
+	var pre []*Term
+	for i, p := range fn.Params {
+		ls := typeLeaves(p.Type(), "", nil)
+		leaves := make([]*Term, len(ls))
+		for k, l := range ls {
+			leaves[k] = BoundVar(fmt.Sprintf("ax.%s%s", paramName(p, i), l.path), l.sort)
+			bvs = append(bvs, leaves[k])
+		}
+		pos := 0
+		v := unflatten(p.Type(), leaves, &pos)
+		args = append(args, v)
+		if isUnsigned(p.Type()) {
+			pre = append(pre, Ge(leaves[0], IntT(0)))
+		}
+	}
+	sig := fn.Signature
+	var rets []Val
+	for i := 0; i < sig.Results().Len(); i++ {
+		rt := sig.Results().At(i).Type()
+		ls := typeLeaves(rt, "", nil)
+		leaves := make([]*Term, len(ls))
+		for k, l := range ls {
+			leaves[k] = UF(fmt.Sprintf("%s.%d%s", name, i, l.path), l.sort, bvs...)
+		}
+		p := 0
+		rets = append(rets, unflatten(rt, leaves, &p))
+	}
+	st := &State{reach: True(), cells: map[*ssa.Alloc]Val{}, heap: newHeap("")}
+	env := ex.calleeEnv(fn, con, args, st, st, rets)
+	var fs []*Term
+	for _, cl := range con.Ensures {
+		fs = append(fs, env.evalBool(cl.Text))
+	}
+	ex.fact(nil, Forall(bvs, Implies(And(pre...), And(fs...))))
 }
 
 type pendingFact struct{ f *Term }
@@ -765,6 +838,91 @@ func (ex *Exec) ifaceCall(fr *Frame, st *State, site ssa.Instruction, named *typ
 
 // abstractInvoke models a pure interface method as an uninterpreted function of receiver and arguments.
 func (ex *Exec) abstractInvoke(st *State, it types.Type, m *types.Func, vals []Val) []Val {
+	if recv, ok := vals[0].(*Agg); ok && len(recv.F) == 2 {
+		if r, ok := ex.dispatchByTag(st, it, m, recv, vals[1:]); ok {
+			return r
+		}
+	}
+	return ex.abstractInvokeUF(st, it, m, vals)
+}
+
+// tagLeaves collects the literal leaves of an ite-tree tag; ok=false when a leaf is symbolic.
+func tagLeaves(t *Term, out map[int64]bool) bool {
+	if n, ok := t.IsInt(); ok {
+		out[n] = true
+		return true
+	}
+	if t.Op == "ite" {
+		return tagLeaves(t.Args[1], out) && tagLeaves(t.Args[2], out)
+	}
+	return false
+}
+
+// dispatchByTag resolves a pure interface method call whose receiver's dynamic type ranges over a
+// known finite set (literal tag or ite-tree of literal tags) to the implementations' contracts.
+func (ex *Exec) dispatchByTag(st *State, it types.Type, m *types.Func, recv *Agg, args []Val) ([]Val, bool) {
+	tag := recv.F[0].(*Term)
+	ids := map[int64]bool{}
+	if !tagLeaves(tag, ids) || len(ids) == 0 || len(ids) > 12 {
+		return nil, false
+	}
+	var result []Val
+	first := true
+	for id := range ids {
+		if id == 0 {
+			continue
+		}
+		dt := ex.typeOf[int(id)]
+		sel := ex.prog.SSA.MethodSets.MethodSet(dt).Lookup(m.Pkg(), m.Name())
+		if sel == nil {
+			return nil, false
+		}
+		fn := ex.prog.SSA.MethodValue(sel)
+		if fn == nil {
+			return nil, false
+		}
+		var rv Val
+		if pointerShaped(dt) {
+			rv = recv.F[1]
+			if len(fn.Params) > 0 {
+				if _, wantPtr := fn.Params[0].Type().Underlying().(*types.Pointer); !wantPtr {
+					if pt, ok := dt.Underlying().(*types.Pointer); ok {
+						rv = st.heap.load(recv.F[1].(*Term), pt.Elem(), nil)
+					}
+				}
+			}
+		} else {
+			rv = st.heap.load(recv.F[1].(*Term), dt, nil)
+		}
+		full := append([]Val{rv}, args...)
+		var r []Val
+		con := ex.contractFor(fn)
+		switch {
+		case con != nil && (con.Pure || con.PureHeap):
+			r = ex.pureApply(fn, con, full, st, true)
+		case (con != nil && con.Inline) || (fn.Synthetic != "" && len(fn.Blocks) > 0):
+			ex.spec++
+			r = ex.inlineCall(nil, st.clone(), fn, full, nil)
+			ex.spec--
+		default:
+			return nil, false
+		}
+		if first {
+			result = r
+			first = false
+		} else {
+			for k := range result {
+				result[k] = iteVal(Eq(tag, IntT(id)), r[k], result[k])
+			}
+		}
+	}
+	if first {
+		return nil, false
+	}
+	return result, true
+}
+
+func (ex *Exec) abstractInvokeUF(st *State, it types.Type, m *types.Func, vals []Val) []Val {
 	var flat []*Term
 	for _, a := range vals {
 		flat = flatten(a, flat)
